@@ -20,6 +20,7 @@ CONSTANTS
   OsFail = FALSE
   BufFloor = 99
   ActFull = FALSE
+  DirObst = FALSE
   Hist = FALSE
 SPECIFICATION TSpec
 INVARIANTS GapFreeSuffix NotLessThanIdeal LenExact AtMostOneRoll
